@@ -252,7 +252,7 @@ theorem optSig_injective {a b : Option Signature}
       rw [encodeSig_injective (ha x rfl) (hb y rfl) h]
 
 /-- **encode is injective** on transactions whose integer fields are in range. -/
-theorem encode_injective {a b : Transaction} (ha : a.WF) (hb : b.WF)
+theorem encode_injective_aux {a b : Transaction} (ha : a.WF) (hb : b.WF)
     (h : encode a = encode b) : a = b := by
   unfold encode at h
   have e11 : ∀ t : Transaction, fInt64 11 t.chainID = fInt64 11 t.chainID ++ [] := by intro t; simp
